@@ -70,6 +70,15 @@ def gen(tier, rng):
     for m in (b"", b".", b"\r\n.\r\n", b".\r\n", b"\r", b"a\r"):
         for k in "sa":
             cases.append(f"wire\t{k}\t{hexs(m)}")
+    # two messages on one connection (what a pooled transport does): every ending of the first x every beginning of the second
+    ends = [b"x", b"x\r", b"x\r\n", b"x\n", b".", b"\r\n.", b"", b"x\r\n.\r", b"\r"]
+    begins = [b".", b"..", b".\r\n", b"\n.", b"\r\n.\r\n", b"x", b"", b".x\r\n.\r\n"]
+    for e in ends:
+        for bg in begins:
+            for k in "sa":
+                cases.append(f"wire2\t{k}\t{hexs(e)}\t{hexs(bg)}")
+    for i in range(nwire // 3):
+        cases.append(f"wire2\t{'sa'[i % 2]}\t{hexs(structured(rng, 300))}\t{hexs(structured(rng, 300))}")
     # an end-of-data look-alike straddling every position around the block sizes a client might write or buffer in:
     # the codec state must survive however the message is cut up on its way to the socket
     blocks = [512, 1024, 2048, 4096, 8192, 16384] + ([32768, 65536] if tier != "quick" else [])
@@ -90,6 +99,8 @@ def message_of(case):
         return b"".join(unhexlist(f[1]))
     if f[0] == "wire":
         return unhex(f[2])
+    if f[0] == "wire2":
+        return unhex(f[2]) + unhex(f[3])
     return unhex(f[2]) if f[0] == "estep" else b""
 
 
@@ -99,6 +110,8 @@ def nontrivial(case):
 
 
 def shrinkable(case):
+    if case.startswith("wire2"):
+        return [2, 3]
     return [1] if case.startswith("codec") else [2]
 
 
@@ -108,6 +121,8 @@ def distribution(cases):
         f = c.split("\t")
         if f[0] == "wire":
             d["wire_sync" if f[1] == "s" else "wire_async"] += 1
+        elif f[0] == "wire2":
+            d["two_messages_one_connection"] = d.get("two_messages_one_connection", 0) + 1
         else:
             d[f[0]] += 1
         m = message_of(c)
